@@ -148,7 +148,7 @@ def where(ctx, report, facts, config, rule="C12.WHERE"):
         if not ok and _only_observes(ctx, facts, rootb):
             ok = True
             why = "only asks the list for its length"
-        if not ok and rootb.key in audited_cone and not rootb.raw.get("pub"):
+        if not ok and rootb.key in audited_cone and not rootb.api:
             # a private helper only the audited bodies call: where it runs is decided by C12.CTX on its callers
             ok = True
             why = "private helper of the audited bodies"
